@@ -19,6 +19,7 @@ import (
 	"math/big"
 	"os"
 	"os/exec"
+	"sort"
 	"strings"
 	"time"
 
@@ -300,6 +301,13 @@ func main() {
 		}
 		cases = append(cases, caseT{Kind: "lib", Src: src, Input: inTag()})
 	}
+	// every native function of the table (internal `_names` included: they are reachable from any
+	// query text) on argument tuples from an adversarial literal set — arrays of unequal lengths,
+	// boundary numbers, odd strings — exhaustively for small arities
+	for _, c := range nativeSweep(r, ctx.Thorough) {
+		cases = append(cases, c)
+		dist["lib:native-sweep"]++
+	}
 	nCli := ctx.N(6000, 120000)
 	for i := 0; i < nCli; i++ {
 		cases = append(cases, genCli(r, corpus))
@@ -380,6 +388,72 @@ func mutate(r *common.Rand, s string) string {
 }
 
 var builtinNames []string
+
+var sweepLits = []string{"null", "true", "0", "-1", "1.5", "nan", "infinite", "-infinite", "1e1000", "\"\"", "\"a\"", "\"\\u00ff\"", "[]", "[0]", "[1,2]", "[3,2,1]", "[[1],[2],[3]]", "{}", "{\"a\":1}",
+	"9223372036854775807", "-9223372036854775808", "100000000000000000000", "2147483648", "[\"a\",0]", "{\"start\":0,\"end\":-1}", "\"%Z\"", "\"(\"", "[null,null,null,null]", "[[0,1],[1]]", "\"abc\""}
+var sweepCore = []string{"null", "0", "-1", "nan", "\"a\"", "[]", "[1]", "[3,2,1]", "{\"a\":1}", "1e1000", "100000000000000000000", "[[1],[2]]"}
+
+// nativeSweep enumerates `v | name(a1; …)` over the native table.
+func nativeSweep(r *common.Rand, thorough bool) []caseT {
+	var out []caseT
+	skip := map[string]bool{"input": true, "debug": true, "stderr": true, "halt": true, "halt_error": true, "input_line_number": true, "$__prog_args": true, "$__loc__": true, "now": true, "input_filename": true, "env": true, "builtins": true}
+	var names []string
+	nat := gojq.VerifNatives()
+	for k := range nat {
+		names = append(names, k)
+	}
+	sort.Strings(names)
+	emit := func(name string, v string, args []string) {
+		call := name
+		if len(args) > 0 {
+			call += "(" + strings.Join(args, "; ") + ")"
+		}
+		out = append(out, caseT{Kind: "lib", Src: v + " | try (" + call + ") catch .", Input: "n"})
+	}
+	for _, name := range names {
+		if skip[name] || strings.HasPrefix(name, "$") {
+			continue
+		}
+		for ar := 0; ar <= 4; ar++ {
+			if nat[name].Argcount&(1<<ar) == 0 {
+				continue
+			}
+			switch {
+			case ar == 0:
+				for _, v := range sweepLits {
+					emit(name, v, nil)
+				}
+			case ar == 1:
+				for _, v := range sweepLits {
+					for _, a := range sweepLits {
+						emit(name, v, []string{a})
+					}
+				}
+			case ar == 2 && thorough:
+				for _, v := range sweepCore {
+					for _, a := range sweepCore {
+						for _, b := range sweepCore {
+							emit(name, v, []string{a, b})
+						}
+					}
+				}
+			default:
+				n := 400
+				if thorough {
+					n = 6000
+				}
+				for i := 0; i < n; i++ {
+					args := make([]string, ar)
+					for j := range args {
+						args[j] = common.Pick(r, sweepLits)
+					}
+					emit(name, common.Pick(r, sweepLits), args)
+				}
+			}
+		}
+	}
+	return out
+}
 
 func builtinCall(r *common.Rand) string {
 	if builtinNames == nil {
